@@ -7,15 +7,15 @@ patch=$1; demo=$2; dest=$3; run=$4; pkg=$5; shift 5
 W=/tmp/wt-verify
 if [ ! -d $W ]; then git -C /repo worktree add -q --detach $W HEAD || exit 2; fi
 cd $W && git checkout -q --detach "$(git -C /repo rev-parse HEAD)" && git checkout -q -- . && git clean -fdq
-cp "$demo" "$dest/" || exit 2
+mkdir -p "$dest"; cp "$demo" "$dest/" || exit 2
 echo "== without the change: demo"
-go test -count=1 -vet=off -run "$run" "$pkg" 2>&1 | tail -3
+go test -count=1 -vet=off ${VERIFY_FLAGS:-} -run "$run" "$pkg" 2>&1 | tail -3
 git apply "$patch" || { echo "PATCH DOES NOT APPLY"; exit 2; }
 echo "== with the change: build"
 go build ./... 2>&1 | tail -3
 echo "== with the change: demo (expected to FAIL)"
-go test -count=1 -vet=off -run "$run" "$pkg" 2>&1 | tail -6
-rm -f "$dest/$(basename "$demo")"
+go test -count=1 -vet=off ${VERIFY_FLAGS:-} -run "$run" "$pkg" 2>&1 | tail -6
+rm -f "$dest/$(basename "$demo")"; rmdir "$dest" 2>/dev/null
 echo "== with the change: existing tests of touched packages"
-go test -count=1 -vet=off "$pkg" "$@" 2>&1 | tail -8
+if [ -d "$dest" ]; then go test -count=1 -vet=off "$pkg" "$@" 2>&1 | tail -8; else go test -count=1 -vet=off "$@" 2>&1 | tail -8; fi
 git checkout -q -- . && git clean -fdq
